@@ -16,14 +16,15 @@ import (
 func TestMain(m *testing.M) { vlib.Main(m) }
 
 type history struct {
-	Carrier  string `json:"carrier"`
-	StartTLS bool   `json:"starttls"`
-	Closer   string `json:"closer"`  // app, target, both
-	Overlap  int    `json:"overlap"` // connections kept open at the same time (1 = sequential)
-	Payload  int    `json:"payload"`
-	Ending   string `json:"ending"` // none, client-shutdown, server-shutdown, cut-rst, cut-fin, garbage, silent
-	N1       int    `json:"n1"`
-	N2       int    `json:"n2"`
+	Carrier   string `json:"carrier"`
+	StartTLS  bool   `json:"starttls"`
+	Closer    string `json:"closer"`  // app, target, both
+	Overlap   int    `json:"overlap"` // connections kept open at the same time (1 = sequential)
+	Payload   int    `json:"payload"`
+	Ending    string `json:"ending"` // none, client-shutdown, server-shutdown, cut-rst, cut-fin, garbage, silent
+	OpenAtEnd int    `json:"idle_connections_open_when_the_session_ends"`
+	N1        int    `json:"n1"`
+	N2        int    `json:"n2"`
 }
 
 // runConns opens n logical connections (overlap at a time), exchanges payload bytes each way and closes them in
@@ -63,18 +64,25 @@ func makeHandler(h history) func(tc *vlib.TargetConn) {
 		defer tc.Conn.Close()
 		buf := make([]byte, 64*1024)
 		total := 0
+		why := ""
+		defer func() {
+			noteExit(fmt.Sprintf("target conn %d from %v: echoed %d, exit: %s", tc.Idx, tc.Conn.RemoteAddr(), total, why))
+		}()
 		for {
 			tc.Conn.SetReadDeadline(time.Now().Add(30 * time.Second))
 			n, err := tc.Conn.Read(buf)
 			if n > 0 {
 				if _, werr := tc.Conn.Write(buf[:n]); werr != nil {
+					why = "write error " + werr.Error()
 					return
 				}
 				total += n
 			}
 			if err != nil {
+				why = "read error " + err.Error()
 				return
 			}
+			why = "closer rule"
 			if (h.Closer == "target" || h.Closer == "both") && total >= h.Payload {
 				return // target closes first
 			}
@@ -95,7 +103,10 @@ func oneConn(p *vlib.Pair, h history) string {
 	}
 	got, err := vlib.ReadFullTimeout(c, len(data), 20*time.Second)
 	if len(got) != len(data) {
-		return fmt.Sprintf("echo incomplete: %d of %d (%v)", len(got), len(data), err)
+		time.Sleep(50 * time.Millisecond)
+		exitMu.Lock()
+		defer exitMu.Unlock()
+		return fmt.Sprintf("echo incomplete: %d of %d (%v) local %v; target exits: %v", len(got), len(data), err, c.LocalAddr(), exitRing)
 	}
 	switch h.Closer {
 	case "app":
@@ -109,6 +120,20 @@ func oneConn(p *vlib.Pair, h history) string {
 		c.Close()
 	}
 	return ""
+}
+
+var (
+	exitMu   sync.Mutex
+	exitRing []string
+)
+
+func noteExit(s string) {
+	exitMu.Lock()
+	exitRing = append(exitRing, s)
+	if len(exitRing) > 6 {
+		exitRing = exitRing[len(exitRing)-6:]
+	}
+	exitMu.Unlock()
 }
 
 const slack = 3
@@ -127,6 +152,7 @@ func TestReclaim(t *testing.T) {
 			endings = append(endings, "silent")
 		}
 		h.Ending = endings[rapid.IntRange(0, len(endings)-1).Draw(rt, "ending")]
+		h.OpenAtEnd = []int{0, 0, 1, 3, 6}[rapid.IntRange(0, 4).Draw(rt, "openAtEnd")]
 		viaRelay := h.Carrier != vlib.CarStdio
 		if !viaRelay && (h.Ending == "cut-rst" || h.Ending == "cut-fin" || h.Ending == "garbage" || h.Ending == "silent") {
 			h.Ending = "server-shutdown"
@@ -136,13 +162,19 @@ func TestReclaim(t *testing.T) {
 			h.Ending = "client-shutdown"
 		}
 
+		if h.Ending == "server-shutdown" || h.Ending == "none" {
+			// shutting the server down stops its listeners; it does not end established sessions, so open logical
+			// connections legitimately stay up
+			h.OpenAtEnd = 0
+		}
+
 		fail := func(msg string, extra map[string]interface{}) {
-			v := map[string]interface{}{"property": "C14", "history": h, "problem": msg, "goroutines": vlib.GoroutineSummary(12), "log": vlib.Tap.Tail(6)}
+			v := map[string]interface{}{"property": "C14", "history": h, "problem": msg, "goroutines": vlib.GoroutineSummary(12), "log": vlib.Tap.Tail(40)}
 			for k, x := range extra {
 				v[k] = x
 			}
 			vlib.Rec.Violation(v)
-			rt.Fatalf("C14 %+v: %s\ngoroutines: %v\nlog: %v", h, msg, vlib.GoroutineSummary(12), vlib.Tap.Tail(6))
+			rt.Fatalf("C14 %+v: %s\ngoroutines: %v\nlog: %v", h, msg, vlib.GoroutineSummary(12), vlib.Tap.Tail(40))
 		}
 
 		vlib.Tap.Reset()
@@ -202,6 +234,33 @@ func TestReclaim(t *testing.T) {
 			fail(fmt.Sprintf("process uses %.0f%% of a core while idle after %d finished connections", cpu*100, h.N1+h.N2), meas)
 		}
 
+		// logical connections that are open and idle when the session ends: their sockets on both sides must be
+		// released as well (the application sees end-of-stream, the target's connection is closed)
+		var idleConns []net.Conn
+		if h.Ending != "none" {
+			idleHandler := makeHandler(history{Closer: "app", Payload: 1})
+			tgt.SetHandler(idleHandler)
+			for i := 0; i < h.OpenAtEnd; i++ {
+				c, err := p.Dial("data")
+				if err != nil {
+					fail("dial: "+err.Error(), nil)
+				}
+				c.SetDeadline(time.Now().Add(20 * time.Second))
+				c.Write([]byte("x"))
+				if got, _ := vlib.ReadFullTimeout(c, 1, 20*time.Second); len(got) != 1 {
+					c.Close()
+					fail("idle connection did not come up", nil)
+				}
+				c.SetDeadline(time.Time{})
+				idleConns = append(idleConns, c)
+			}
+		}
+		defer func() {
+			for _, c := range idleConns {
+				c.Close()
+			}
+		}()
+
 		// session ending
 		switch h.Ending {
 		case "none":
@@ -226,6 +285,18 @@ func TestReclaim(t *testing.T) {
 			if h.Ending == "silent" {
 				wait = 45 * time.Second
 			}
+			// every idle application connection must see the end of its tunnel
+			for i, c := range idleConns {
+				c.SetReadDeadline(time.Now().Add(wait + 10*time.Second))
+				buf := make([]byte, 8)
+				if _, err := c.Read(buf); err == nil {
+					fail(fmt.Sprintf("idle connection %d received data after the session ended", i), meas)
+				} else if ne, ok := err.(net.Error); ok && ne.Timeout() {
+					fail(fmt.Sprintf("after the session ended (%s) idle application connection %d of %d is never told: no end-of-stream within %v", h.Ending, i, len(idleConns), wait+10*time.Second), meas)
+				}
+				c.Close()
+			}
+			idleConns = nil
 			limit := vlib.Footprint{Goroutines: idle.Goroutines + slack, FDs: idle.FDs + slack}
 			after := vlib.QuiesceBelow(limit, wait)
 			time.Sleep(300 * time.Millisecond)
@@ -250,12 +321,10 @@ func TestReclaim(t *testing.T) {
 			}
 		}
 		nontrivial := h.Closer != "app" || h.Ending != "none"
-		labels := []string{"carrier:" + h.Carrier, "closer:" + h.Closer, "ending:" + h.Ending, fmt.Sprintf("overlap:%d", h.Overlap)}
+		labels := []string{"carrier:" + h.Carrier, "closer:" + h.Closer, "ending:" + h.Ending, fmt.Sprintf("overlap:%d", h.Overlap), fmt.Sprintf("open-at-end:%d", h.OpenAtEnd)}
 		if h.StartTLS {
 			labels = append(labels, "starttls")
 		}
 		vlib.Rec.Case(fmt.Sprintf("%+v", h), nontrivial, labels, func() interface{} { return map[string]interface{}{"history": h, "measured": meas} })
 	})
 }
-
-var _ = net.Dial
